@@ -25,6 +25,7 @@ necessary to account for:
 from math import pi
 
 from tangelo.toolboxes.operators import QubitOperator
+from tangelo.linq import Gate
 
 
 def get_cirq_gates():
@@ -97,7 +98,8 @@ def translate_c_to_cirq(source_circuit, noise_model=None, save_measurements=Fals
             num_controls = len(gate.control)
             control_list = [qubit_list[c] for c in gate.control]
             if gate.name == 'CNOT' and num_controls > 1:
-                gate.name = 'CX'
+                # Multi-controlled CNOT is handled as CX. Use a renamed copy: the source circuit must not be modified.
+                gate = Gate('CX', gate.target, gate.control, gate.parameter, gate.is_variational)
         if gate.name in {"H", "X", "Y", "Z", "S", "SDAG", "T"}:
             target_circuit.append(GATE_CIRQ[gate.name](qubit_list[gate.target[0]]))
         elif gate.name in {"CH", "CX", "CY", "CZ"}:
